@@ -64,6 +64,8 @@ MUTANTS = [
     # ---- C09
     ("C09", "detect", "core/curl.py", "    if not verify:", "    if verify:", "--insecure inverted"),
     ("C09", "detect", "core/curl.py", "if key not in known_generated_headers and key in get_excluded_headers():", "if key in get_excluded_headers():", "generated headers dropped from the command"),
+    ("C09", "detect", "generation/case.py", "            known_generated_headers=dict(self.headers or {}),", "            known_generated_headers={},", "generated headers not declared to the curl generator (they get filtered out)"),
+    ("C09", "detect", "generation/case.py", "            verify=verify,\n            headers=dict(request_data.headers),", "            verify=True,\n            headers=dict(request_data.headers),", "--insecure never printed"),
     # ---- C10
     ("C10", "detect", "specs/openapi/expressions/nodes.py", "            \"query\": output.case.query,\n            \"path\": output.case.path_parameters,", "            \"query\": output.case.path_parameters,\n            \"path\": output.case.query,", "$request.query reads path parameters"),
     ("C10", "detect", "specs/openapi/stateful/__init__.py", "        return result.response.status_code in status_codes", "        return result.response.status_code not in status_codes", "link status filter inverted"),
@@ -99,6 +101,7 @@ MUTANTS = [
     # ---- C19
     ("C19", "detect", "hooks.py", "    return filter_set is not None and ctx.operation is not None and not filter_set.match(ctx)", "    return filter_set is not None and ctx.operation is not None and filter_set.match(ctx)", "hook filter inverted"),
     ("C19", "detect", "hooks.py", "        for hook in self.get_all_by_name(f\"filter_{container}\"):\n            if _should_skip_hook(hook, context):\n                continue", "        for hook in self.get_all_by_name(f\"filter_{container}\"):\n            if False:\n                continue", "filter_* hooks ignore their own filters"),
+    ("C19", "detect", "hooks.py", "    strategy = operation.schema.hooks.apply_to_container(strategy, container, context)\n    if hooks is not None:", "    if hooks is not None:", "schema-level hooks skipped"),
     # ---- C20
     ("C20", "detect", GQL, "RootType.QUERY: gql_st.queries,", "RootType.QUERY: gql_st.mutations,", "queries generated with the mutation generator"),
     ("C20", "detect", GQL, "custom_scalars = {**get_extra_scalar_strategies(), **CUSTOM_SCALARS}", "custom_scalars = {**CUSTOM_SCALARS, **get_extra_scalar_strategies()}", "built-in scalars override registered ones"),
@@ -106,5 +109,6 @@ MUTANTS = [
     ("C20", "detect", GQL, "fields=[definition.field_name],", "fields=None,", "all fields selected"),
     ("C20", "detect", GQL, "            (RootType.MUTATION, schema.mutation_type),\n        ):\n            if operation_type is None:", "            (RootType.MUTATION, schema.mutation_type),\n            (RootType.MUTATION, schema.subscription_type),\n        ):\n            if operation_type is None:", "subscription fields offered as mutations"),
     ("C20", "detect", GQL, "                            if not self._should_skip(dummy_operation):\n                                statistic.operations.selected += 1", "                            statistic.operations.selected += 1", "statistic counts deselected operations as selected"),
+    ("C20", "detect", "transport/prepare.py", "{\"query\": case.body}", "{\"document\": case.body}", "GraphQL document sent under the wrong member"),
     ("C20", "quiet", GQL, "    hook_context = HookContext(operation)\n    custom_scalars = {**get_extra_scalar_strategies(), **CUSTOM_SCALARS}\n", "    custom_scalars = {**get_extra_scalar_strategies(), **CUSTOM_SCALARS}\n    hook_context = HookContext(operation)\n", "independent statements reordered"),
 ]
